@@ -579,6 +579,9 @@ func ruleCacheSiblings(c *Ctx) {
 				}
 				if st, ok := ins.(*ssa.Store); ok {
 					if f, base, ok := fieldAddr(st.Addr); ok && fset[f] && origin(base) == recv {
+						if s.Stored != "" && s.Stored != f.Name() {
+							violations["one packet is stored into two parameter-set slots ("+s.Stored+" and "+f.Name()+"): PushTo replays every slot, so a late joiner receives that packet twice"] = ins
+						}
 						s.Stored = f.Name()
 						return []cpState{s}
 					}
